@@ -1,6 +1,7 @@
 // Native replay for C20: executes an operation history on splinetable objects whose allocator counts what it hands out
 // (through the Alloc template parameter), under ASan/UBSan.
-//   replay_history <dir with A.fits B.fits bad.fits bad2.fits> <token> ...      token = <object>:<op>[:<arg>[:<arg>]]
+//   replay_history <dir with A.fits B.fits bad.fits bad2.fits> [failalloc:<k>] <token> ...      token = <object>:<op>[:<arg>[:<arg>]]
+//   failalloc:<k> makes the k-th allocate<T>() issued inside read / fit / convolve operations throw std::bad_alloc
 // ops: read:<file>  fit:ok1|ok2|badargs  key:<K>:<V>  rmkey:<K>  convolve:<dim>:<n>  permute:rev|bad  write:<file>
 // Prints one line per operation and, after destroying the objects, the bytes never returned to the allocator and the
 // number of deallocations with a wrong size / unknown pointer.  Exit 1 if any of those is non-zero, 3 for an unsupported op.
@@ -10,10 +11,11 @@
 #include <map>
 #include <memory>
 #include <sstream>
-struct Counter{ static size_t cur; static std::map<void*,size_t> live; static unsigned mismatches, nulls; };
-size_t Counter::cur=0; std::map<void*,size_t> Counter::live; unsigned Counter::mismatches=0, Counter::nulls=0;
+struct Counter{ static size_t cur; static std::map<void*,size_t> live; static unsigned mismatches, nulls; static long count, fail_at; static bool enabled; };
+size_t Counter::cur=0; std::map<void*,size_t> Counter::live; unsigned Counter::mismatches=0, Counter::nulls=0; long Counter::count=0, Counter::fail_at=-1; bool Counter::enabled=false;
 template<class T> struct CA{ typedef T value_type; CA(){} template<class U> CA(const CA<U>&){} template<class U> struct rebind{ typedef CA<U> other; };
-	T* allocate(size_t n){ size_t b=n*sizeof(T); void* p=::operator new(b?b:1); Counter::live[p]=b; Counter::cur+=b; return (T*)p; }
+	T* allocate(size_t n){ if(Counter::enabled && Counter::count++==Counter::fail_at) throw std::bad_alloc();   // injected failure (counted in read / fit / convolve only)
+		size_t b=n*sizeof(T); void* p=::operator new(b?b:1); Counter::live[p]=b; Counter::cur+=b; return (T*)p; }
 	void deallocate(T* p,size_t n){ if(!p && !n){ Counter::nulls++; return; } auto it=Counter::live.find(p); if(it==Counter::live.end()){ Counter::mismatches++; return; }
 		if(it->second!=n*sizeof(T)) Counter::mismatches++; Counter::cur-=it->second; Counter::live.erase(it); ::operator delete(p); }
 	template<class U> bool operator==(const CA<U>&) const{return true;} template<class U> bool operator!=(const CA<U>&) const{return false;} };
@@ -40,9 +42,11 @@ int main(int argc,char**argv){
 	{
 		std::vector<std::unique_ptr<table_t>> objs; for(int i=0;i<2;i++) objs.emplace_back(new table_t());
 		for(int a=2;a<argc;a++){
+			if(!strncmp(argv[a],"failalloc:",10)){ Counter::fail_at=atol(argv[a]+10); continue; }
 			std::vector<std::string> tk; { std::stringstream ss(argv[a]); std::string s; while(std::getline(ss,s,':')) tk.push_back(s); }
 			while(tk.size()<4) tk.push_back("");
 			table_t& t=*objs[atoi(tk[0].c_str())]; const std::string& op=tk[1]; std::string res="ok";
+			Counter::enabled = (op=="read"||op=="fit"||op=="convolve");
 			try{
 				if(op=="read") t.read_fits(dir+"/"+tk[2]+".fits");
 				else if(op=="fit"){ if(tk[2]=="fail"){ printf("unsupported: a fitter failure cannot be forced natively\n"); return 3; } dofit(t,tk[2]); }
@@ -53,6 +57,9 @@ int main(int argc,char**argv){
 				else if(op=="write") t.write_fits(dir+"/"+tk[2]+".fits");
 				else { printf("unsupported op %s\n",op.c_str()); return 3; }
 			}catch(std::exception& ex){ res=std::string("exception: ")+ex.what(); }
+			Counter::enabled=false;
+			// a table that reports dimensions must be usable: touch what every consumer reads first
+			if(t.get_ndim()>0){ volatile double sink=0; for(uint32_t d=0; d<t.get_ndim(); d++) sink+=t.get_order(d)+t.get_nknots(d)+t.get_ncoeffs(d)+t.get_stride(d)+t.lower_extent(d)+t.get_knot(d,0); sink+=t.get_coefficients()[0]; (void)sink; }
 			printf("%s -> %s ; ndim=%u naux=%zu live=%zu bytes\n", argv[a], res.substr(0,90).c_str(), t.get_ndim(), t.get_naux_values(), Counter::cur); fflush(stdout);
 		}
 	}
